@@ -75,6 +75,17 @@ PROPS = {
         fields=[3, 8, 11, 16],
         rule=CHAIN_RULE + "; 3-5 validators with powers 1-5, thresholds 0.5 .. 1, votes with wrong owners (35%), repeated entries, strangers, jailed validators",
         assumptions=["x/staking: bonded status follows jailing at the staking end-block, which runs before the oracle's; consensus power = tokens / 10^6 (ConstantReward: 1 per validator with positive power)"]),
+    'C06': dict(
+        theorems=['C06_records_stay_safe', 'C06_genesis_safe', 'C06_payout_cannot_panic', 'C06_handlers_total', 'C06_oracle_handlers_total',
+                  'C06_entry_parser_total', 'C06_entry_parser_is_model', 'C06_round_arithmetic_total', 'C06_step_never_panics'],
+        runs=[chain('adv', 'adversarial', 64, 2400, 'check_C06'),
+              chain('periods', 'periods', 24, 800, 'check_C06'),
+              chain('faults', 'faults', 24, 800, 'check_C06')],
+        fields=[20, 21],
+        inventory=[('panic_sites', 'panic_table')],
+        rule=CHAIN_RULE + "; adversarial stream: negative / zero / 2^63 / 2^64 / 2^256-1 amounts, malformed and unregistered denominations, malformed token ids and contract addresses, vote entries without ':' or '/', deprecated and unknown topics, periods near 2^64; every history runs on through maturity, tally and slash window",
+        assumptions=["panic sites are those of the generated inventory of x/settlement, x/oracle, app/ante, app/post, types (go/parser; every site must be accounted for in Inventory/Table.v); a panic deep inside a dependency is caught only dynamically",
+                     "genesis-imported records are configuration: the theorem assumes the imported records satisfy rec_safe (the empty genesis does)"]),
     'C08': dict(
         theorems=['C08_round_arithmetic', 'C08_tally_once_per_round', 'C08_round_info_current', 'C08_prevote_iff', 'C08_prevote_effect',
                   'C08_vote_iff', 'C08_vote_effect', 'C08_no_tally_elsewhere', 'C08_nothing_left_behind', 'C08_replayed_vote_rejected'],
@@ -130,6 +141,8 @@ LEVELS = {
                 note=PROOF_NOTE, technique=SETTLE_TECH),
     'C05': dict(text="Unbounded theorems on the tally model: an owner is accepted for an NFT iff the DISTINCT bonded, unjailed validators that revealed it hold at least threshold x total power (ceil) and no other revealed owner does; the decision depends only on the set of revealed triples (repetition irrelevant); inactive validators have weight 0; the fill changes exactly the records without recipients created before the cut-off. Proved by refinement of the coded grouping/summing to a sum over validators. Correspondence on ABCI rounds with unequal powers, threshold boundaries, repeated and conflicting entries.",
                 note=PROOF_NOTE, technique="Coq proof: refinement of the coded tally to its specification (sum over distinct validators) + differential correspondence via vm_compute"),
+    'C06': dict(text="Unbounded theorems: every record that enters the store through a transaction keeps a valid coin and at most one unit-weight recipient in every history (arbitrary oracle fills, faults), hence no coin construction or 256-bit product of the payout loop can panic; every handler of the model is total; the vote-entry parser with Go index expressions made explicit never indexes out of range; round arithmetic never divides by zero for accepted vote periods; the composed step never reports a panic. The panic-site inventory of the current source is regenerated on every run and must be fully accounted for by the model's table. Correspondence + panic observation on adversarial ABCI histories.",
+                note=PROOF_NOTE, technique="Coq proof: safety invariant over all histories + explicit-panic model of the parser + generated panic-site inventory obligation + adversarial differential runs"),
     'C08': dict(text="Unbounded theorems: uint64/int64 round arithmetic for every accepted vote period; in every block-structured history the stored round info is the round of the executing height; exact acceptance conditions of prevote and vote; the tally gate opens once per round, at its last block; no ballot survives a tally; a replayed vote is rejected. Correspondence on ABCI histories with messages at every window offset.",
                 note=PROOF_NOTE, technique="Coq proof: invariant over block-structured histories of the composed chain model + lia/nia arithmetic + differential correspondence"),
     'C10': dict(text="Unbounded theorems: recipients of a new record are exactly the on-chain owner (this chain), empty (supported external chain) or the record is rejected; transactions and environment never modify an existing record; an end-block changes a pending record only at a tally, only if it had no recipients and was created before the tallied round, only to the owner accepted for its NFT; set recipients are never overwritten; the published source list is exactly the unfilled records older than the cut-off.",
@@ -141,4 +154,4 @@ LEVELS = {
 }
 
 NOT_APPLICABLE = {p: "work in progress in this session: model exists, check not yet registered" for p in
-                  ['C03','C04','C06','C07','C13','C16','C17','C18','C19','C20']}
+                  ['C03','C04','C07','C13','C16','C17','C18','C19','C20']}
